@@ -120,8 +120,8 @@ func (o canonOpt) write(sb *strings.Builder, v reflect.Value, depth int) {
 		first := true
 		for i := 0; i < t.NumField(); i++ {
 			f := t.Field(i)
-			if f.PkgPath != "" || strings.HasPrefix(f.Name, "XXX_") {
-				continue // unexported / generated bookkeeping
+			if f.PkgPath != "" || (strings.HasPrefix(f.Name, "XXX_") && f.Name != "XXX_unrecognized") {
+				continue // unexported / generated bookkeeping (gogo keeps unknown fields in XXX_unrecognized: part of the value)
 			}
 			if !first {
 				sb.WriteByte(',')
